@@ -34,15 +34,15 @@ TEXT = {
    note='Correct nodes run a harness consensus strategy, application and timers; the network, Byzantine behaviour and crashes are simulated; a panic of an engine goroutine kills the worker and is classified by the runner (counted as aborted for properties other than C09). Runs are sampled, not enumerated.', ref='4/C02'),
  'C04': dict(
    technique='deterministic simulation: multi-node engine world with crash-restart; shadow of every committed-header and mirror-store write',
-   text='After every store write of every correct node: a committed height never changes hash, no gaps, each header names the stored predecessor hash, voting position monotone and one above committing.',
+   text='After every store write of every correct node: a committed height never changes hash, no gaps, each header names the stored predecessor hash, voting position monotone and one above committing; once nothing is left to run the persisted position is in step with the committed-header store. The single-node adversarial part adds conflicting certificates, replays and proposals that name a foreign (also a certified foreign) predecessor for the voting and the next round; a crash-restart part walks a crash through the store writes of honest histories.',
    note='Correct nodes run a harness consensus strategy, application and timers; the network, Byzantine behaviour and crashes are simulated; a panic of an engine goroutine kills the worker and is classified by the runner (counted as aborted for properties other than C09). Runs are sampled, not enumerated.', ref='4/C04'),
  'C10': dict(
    technique='deterministic simulation with enumerated crash points: one real engine on recording store wrappers driven by a scripted honest history; process death after every store write (every write is a scheduling point), restart by tmengine.New on the same stores, peers resend; end state compared with the scripted chain',
-   text='Fault enumeration over the store-write positions of seeded scripted histories (a batch of consecutive seeds shares one script and walks the crash position through writes 1..72; 25% of the runs add a second crash during recovery), plus sampled crash/restart of correct nodes in the multi-node world. Oracles: New returns no error; positions recorded after the restart are not behind the durable ones; the first published views of the resumed rounds contain every stored proposal and vote (and they verify); no finalization is re-saved with other content; stored committed headers stay what was saved; once nothing is left to do the committed-header store equals the scripted chain and every decided height is finalized. Not exhaustive over schedules between writes (sampled) or over histories.',
+   text='Fault enumeration over the store-write positions of seeded scripted histories (a batch of consecutive seeds shares one script and walks the crash position through writes 1..72; 25% of the runs add a second crash during recovery), plus sampled crash/restart of correct nodes in the multi-node world. Oracles: New returns no error; positions recorded after the restart are not behind the durable ones; the first published views of the resumed rounds contain every stored proposal and vote (and they verify); no finalization is re-saved with other content; stored committed headers stay what was saved; once nothing is left to do the committed-header store equals the scripted chain and every decided height is finalized; proposals the strategy had been offered in a round before the stop are offered again when it re-enters that round; the persisted position ends in step with the committed-header store; a panic of the engine after a restart counts as not resumed. The scripted histories include genuine replayed headers. Not exhaustive over schedules between writes (sampled) or over histories.',
    note='The seven in-memory stores are the durable state (the store objects survive, everything else is dropped); crash = context cancellation + no further writes from the dead incarnation. Strategy, application and timers of the node are harness code; the peers are a scripted environment that resends the current round and regossips decided heights after a restart. Liveness is judged only at quiescence (nothing enabled), never by a step bound.', ref='4/C10'),
  'C11': dict(
    technique='deterministic simulation: multi-node engine world; every view is observed right after its consumer received it',
-   text='Per consumer and height/round: versions strictly increase, proposals and votes only grow; checked on every view the state machine and the gossip strategy receive under seeded relative speeds of kernel, handlers and consumers.',
+   text='Per consumer and height/round: versions strictly increase, proposals and votes only grow, a delivered view never changes afterwards, a jump-ahead never names a round the state machine has already entered; checked on every view the state machine and the gossip strategy receive under seeded relative speeds of kernel, handlers and consumers. Currency: at seeded lulls in the middle of a history (no delivery, no timer, no environment action until nothing is parked) and at the end, each mirror is asked for its own views, and gossip and the state machine (for the round it is in) must hold every vote in them.',
    note='Correct nodes run a harness consensus strategy, application and timers; the network, Byzantine behaviour and crashes are simulated; a panic of an engine goroutine kills the worker and is classified by the runner (counted as aborted for properties other than C09). Runs are sampled, not enumerated.', ref='4/C11'),
  'C05': dict(
    technique='deterministic simulation: multi-node engine world with frame corruption, replay and Byzantine-signed votes; independent crypto/ed25519 verification of every signature in views, round-store writes and gossip frames',
@@ -50,7 +50,7 @@ TEXT = {
    note='Correct nodes run a harness consensus strategy, application and timers; the network, Byzantine behaviour and crashes are simulated; a panic of an engine goroutine kills the worker and is classified by the runner (counted as aborted for properties other than C09). Runs are sampled, not enumerated.', ref='4/C05'),
  'C06': dict(
    technique='deterministic simulation: multi-node engine world with equivocating Byzantine validators; vote summaries recomputed independently in math/big for every observed view',
-   text='Every view crossing to the state machine or gossip has its VoteSummary recomputed from the admitted signer bitsets with each validator counted once; any difference is a violation.',
+   text='Every view crossing to the state machine or gossip has its VoteSummary recomputed from the admitted signer bitsets with each validator counted once; any difference is a violation. The mirror\'s proposed-header fetch requests are recorded: when votes added to the voting round lift a missing header to at least a third of the power (distinct validators, full power per target) a request must have been made.',
    note='Correct nodes run a harness consensus strategy, application and timers; the network, Byzantine behaviour and crashes are simulated; a panic of an engine goroutine kills the worker and is classified by the runner (counted as aborted for properties other than C09). Runs are sampled, not enumerated.', ref='4/C06'),
  'C07': dict(
    technique='deterministic simulation: multi-node engine world with a validator-rotating application and in-flight corruption; validator sets compared element-wise with what the committed chain prescribes',
